@@ -77,7 +77,32 @@ def padding_form(pad, facts, LEN, env, mutable=False):
             guard = True
         if op == "Ge" and m(E, a, dict(env)) and m(Const(1), c):
             guard = True
+    if not second:
+        # the padding length written differently (`(8 - len % 8) % 8`, `len.wrapping_neg() & 7`, `len.next_multiple_of(8) - len`):
+        # decided over the residues of the length (A13).  REFUTED is remembered for the caller.
+        e2 = {}
+        shape = m(Call(idx, ("repeat", Const(0), ANY), ("adt", "std::ops::Range", "Range", ANY, (Const(0), Bind("e")))), pad, e2) or \
+            m(Call(idx, ("repeat", Const(0), ANY), ("adt", "std::ops::RangeTo", "RangeTo", ANY, (Bind("e"),))), pad, e2)
+        if shape and "e" in e2:
+            import residues
+            r_, why = residues.agrees(None if False else _F[0], e2["e"], lambda x: bool(m(LEN, x, dict(env))),
+                                      lambda N: ("bin", "Sub", residues.call("bits::round_up_to_word_bytes", N), N))
+            padding_form.last = (r_, why)
+            if r_:
+                second = True
+                ee = strip_casts(e2["e"])
+                for fc in facts:
+                    if fc[0] == "cmp" and ((fc[1] in ("Gt", "Ne", "Ge") and strip_casts(fc[2]) == ee) or (fc[1] in ("Lt", "Ne", "Le") and strip_casts(fc[3]) == ee)):
+                        guard = True
+        else:
+            padding_form.last = (None, "padding slice not recognised")
+    else:
+        padding_form.last = (True, "")
     return bool(second), guard
+
+
+_F = [None]
+padding_form.last = (None, "")
 
 
 def check(ctx):
@@ -92,7 +117,52 @@ def check(ctx):
         from core import Relabel
         c19.check_config(Relabel(ctx, {"C19.R2.validation-matches-builder": "C06.R6.validation-matches-builder"}), ctx.facts(cfg), "" if cfg == "native" else "@" + cfg)
         check_sparse_validation(ctx, ctx.facts(cfg), "" if cfg == "native" else "@" + cfg)
+        c19.check_sparse_builder_enables(ctx, ctx.facts(cfg), "" if cfg == "native" else "@" + cfg, "C06.R5")
         check_no_read_ahead(ctx, ctx.facts(cfg), "" if cfg == "native" else "@" + cfg)
+        check_refusal_inventory(ctx, ctx.facts(cfg), "" if cfg == "native" else "@" + cfg, "C06.R6.loader-refusals-reviewed", lambda n: n.endswith("serialize::Serialize>::load"))
+        # R8 (borrowed): "exactly size_in_bytes(x) bytes are written" on the file route -- a buffering writer the library wraps
+        # around the file is flushed on every successful path (C14.R2)
+        import c14
+        c14.check_config(Relabel(ctx, {"C14.R2.buffered-writer-flushed": "C06.R8.buffered-writer-flushed", "C14.R2.copy-count-checked": "C06.R8.copy-count-checked"}),
+                         ctx.facts(cfg), "" if cfg == "native" else "@" + cfg, views=False)
+
+
+# Number of places where each loader / mapper constructor builds an io::Error of its own (counted on the pinned tree, each read
+# against what the writer produces: rules R2, R6 and C13.R2 decide the conditions themselves).
+REVIEWED_REFUSALS = {
+    "<bit_vector::select_support::SelectSupport<T> as serialize::Serialize>::load": 1,
+    "<bit_vector::BitVector as serialize::Serialize>::load": 4,
+    "<int_vector::IntVector as serialize::Serialize>::load": 1,
+    "<raw_vector::RawVector as serialize::Serialize>::load": 1,
+    "<rl_vector::RLVector as serialize::Serialize>::load": 1,
+    "<std::string::String as serialize::Serialize>::load": 1,
+    "<sparse_vector::SparseVector as serialize::Serialize>::load": 2,
+    "<wavelet_matrix::wm_core::WMCore as serialize::Serialize>::load": 2,
+    "<wavelet_matrix::WaveletMatrix as serialize::Serialize>::load": 1,
+    "<int_vector::IntVectorMapper<'a> as serialize::MemoryMapped<'a>>::new": 1,
+    "<raw_vector::RawVectorMapper<'a> as serialize::MemoryMapped<'a>>::new": 1,
+    "<serialize::MappedSlice<'a, T> as serialize::MemoryMapped<'a>>::new": 2,
+    "<serialize::MappedBytes<'a> as serialize::MemoryMapped<'a>>::new": 2,
+    "<serialize::MappedStr<'a> as serialize::MemoryMapped<'a>>::new": 3,
+    "<serialize::MappedOption<'a, T> as serialize::MemoryMapped<'a>>::new": 1,
+}
+
+
+def check_refusal_inventory(ctx, F, tag, rule, select):
+    """"Every value the library writes loads back": a loader refuses only what the review has read against the writer.  A refusal
+    the review has not seen (a new InvalidData test in a loader) may reject the library's own output for inputs no test builds; it is
+    neither established nor refuted here -- the run is undecided and names the site.  (Fewer refusals than reviewed are left to
+    the rules that ask for each validation by name.)"""
+    for b in F.all_bodies():
+        if not select(b.name) or "::tests::" in b.name:
+            continue
+        sites = [loc(t["sp"]) for bi, t in b.calls() if "io::Error::new" in callee_name(t) or "io::Error::other" in callee_name(t)]
+        want = REVIEWED_REFUSALS.get(b.name, 0)
+        if not sites and not want:
+            continue
+        ctx.ob(rule, b.name + tag, loc(b.raw["span"]), True if len(sites) <= want else None, "site-inventory",
+               "%d refusal(s) built in this function, %d reviewed%s" % (len(sites), want, "" if len(sites) <= want else "; not reviewed against the writer: one of %s" % sites),
+               nontrivial=False)
 
 
 def check_no_read_ahead(ctx, F, tag):
@@ -176,6 +246,7 @@ def flatten(ctx, name, H, B, where, tag):
 
 
 def check_config(ctx, F, tag):
+    _F[0] = F
     impls = serfmt.serialize_impls(F)
     ctx.count("serialize-impls" + tag, len(impls))
     fixed_counts = {}
@@ -336,8 +407,12 @@ def check_basic(ctx, F, by_name, tag):
     ctx.ob("C06.R2.basic.serializable-header-empty", "V" + tag, where, len(list(hb.calls())) == 0, "sequence-shape", "header of a Serializable writes nothing")
     bb = f["serialize_body"]
     wa = calls_named(bb, lambda x: x == "std::io::Write::write_all")
-    okb = len(wa) == 1 and m(Call(lambda x: x.startswith("std::slice::from_raw_parts"), Param(0), Call("std::mem::size_of")), bb.term_of_operand(wa[0][1]["args"][1])) \
+    # (size_of_val(self) of a Sized Self is size_of::<Self>())
+    okb = len(wa) == 1 and (m(Call(lambda x: x.startswith("std::slice::from_raw_parts"), Param(0), Call("std::mem::size_of")), bb.term_of_operand(wa[0][1]["args"][1])) or
+                            m(Call(lambda x: x.startswith("std::slice::from_raw_parts"), Param(0), Call("std::mem::size_of_val", Param(0))), bb.term_of_operand(wa[0][1]["args"][1]))) \
         and core(bb.term_of_operand(wa[0][1]["args"][0]))[:2] == ("param", 1)
+    if not okb and not any(callee_name(t).startswith("std::slice::from_raw_parts") for _, t in bb.calls()):
+        okb = None          # the bytes of the value are obtained some other way: a construction this rule does not read
     ctx.ob("C06.R2.basic.serializable-body", "V" + tag, where, okb, "formula", "body writes size_of::<Self>() bytes of self once")
     lb = f["load"]
     re = calls_named(lb, lambda x: x == "std::io::Read::read_exact")
@@ -397,7 +472,7 @@ def check_basic(ctx, F, by_name, tag):
            "size = %s" % tstr(sb.term_of_local(0)))
 
     # ---------------- Vec<u8> and String (same format)
-    for key, lenf, bytesf in (("std::vec::Vec<u8>", is_vec_len, lambda x: x.endswith("::as_slice")),
+    for key, lenf, bytesf in (("std::vec::Vec<u8>", is_vec_len, lambda x: x.endswith("::as_slice") or (x.endswith("::deref") and "Vec" in x)),
                               ("std::string::String", lambda x: x == "std::string::String::len", lambda x: x == "std::string::String::as_bytes")):
         im = by_name[key]; f = im["fns"]; where = loc(im["impl"]["span"])
         short = key.split("::")[-1]
@@ -424,14 +499,23 @@ def check_basic(ctx, F, by_name, tag):
             second, guard = padding_form(pad, fs, LEN, env)
             second = second and core(wa[1]["args"][0])[:2] == ("param", 1)
             okb = first and second and guard
+            refuted_pad = False
             if first and not second:
-                okb = None      # the padding length is computed by a formula this rule does not read (`8 - len % 8`, ..): not refuted
-            detail = "body = bytes then zero padding of round_up_to_word_bytes(len) - len bytes when > 0%s: first=%s padding=%s guard=%s" % (
-                (" (padding written by helper %s)" % wa[1]["via"]) if wa[1]["via"] else "", first, second, guard)
-        ctx.ob("C06.R2.basic.bytes-body", short + tag, where, okb, "formula", detail)
+                okb = None      # the padding length is computed by a formula this rule does not read: not refuted
+                if padding_form.last[0] is False:
+                    okb, refuted_pad = False, True          # ... unless it evaluates, and differs from the padding for some length
+            detail = "body = bytes then zero padding of round_up_to_word_bytes(len) - len bytes when > 0%s: first=%s padding=%s guard=%s %s" % (
+                (" (padding written by helper %s)" % wa[1]["via"]) if wa[1]["via"] else "", first, second, guard, padding_form.last[1])
+        ctx.ob("C06.R2.basic.bytes-body", short + tag, where, okb, "formula", detail, positive=bool(okb is False and locals().get("refuted_pad")))
         sb = f["size_in_elements"]
-        ctx.ob("C06.R2.basic.bytes-size", short + tag, where,
-               m(Bin("Add", Const(1), Call("bits::bytes_to_words", Call(lenf, Param(0)))), sb.term_of_local(0)), "formula", "size = %s" % tstr(sb.term_of_local(0)))
+        oks = m(Bin("Add", Const(1), Call("bits::bytes_to_words", Call(lenf, Param(0)))), sb.term_of_local(0))
+        sem, pos = "", False
+        if not oks:
+            import residues
+            is_n = lambda x: x[0] == "call" and (lenf(x[1]) if callable(lenf) else x[1] == lenf) and core(x[2][0])[:2] == ("param", 0)
+            r_, sem = residues.agrees(F, sb.term_of_local(0), is_n, lambda N: ("bin", "Add", ("const", 1), residues.call("bits::bytes_to_words", N)))
+            oks, pos = (True if r_ else oks), r_ is False
+        ctx.ob("C06.R2.basic.bytes-size", short + tag, where, oks, "formula", "size = %s %s" % (tstr(sb.term_of_local(0)), sem), positive=pos)
     # Vec<u8>::load
     im = by_name["std::vec::Vec<u8>"]; lb = im["fns"]["load"]; where = loc(im["impl"]["span"])
     L = serfmt.load_seq(lb)
@@ -527,7 +611,9 @@ def check_basic(ctx, F, by_name, tag):
         zn = len(nones) >= 1 and all(any(fc[0] == "cmp" and fc[1] == "Eq" and core(fc[2]) == core(size) and m(Const(0), fc[3]) for fc in facts_at(lb, bi)) for bi in nones)
         somes = [st for bi, si, st in lb.stmts() if st["s"] == "assign" and st["rv"]["r"] == "agg" and st["rv"].get("def") == "std::option::Option" and st["rv"]["vname"] == "Some"]
         sp = len(somes) == 1 and root_local(lb, somes[0]["rv"]["ops"][0]) == L[1]["payload"]
-        okl = nz and zn and sp
+        # the guard of the nested load is the refutable part; how the two results are wrapped (a match, `then(..).transpose()`,
+        # a helper) is a construction the provenance walk may not follow: undecided then, not refuted
+        okl = (nz and zn and sp) if (nz and zn and sp) or not nz else None
         detail = "load: V::load only when size != 0: %s; None only when size == 0: %s; Some(payload): %s" % (nz, zn, sp)
     ctx.ob("C06.R2.basic.option-load", "Option<V>" + tag, where, okl, "formula+dominance", detail)
     sb = f["size_in_elements"]
